@@ -90,6 +90,12 @@ CHECKS = {
             "the empty string, a complete statement or raises a library exception; SQLite-class statements incl. CREATE/DROP are prepared by the engine and may not "
             "fail with a parse-class error.",
             "Trusted: the partial order of non-commuting calls and the clause-order tables in pbt/props/c13.py (DESIGN.md Appendix B)."),
+    "C08": ("Hypothesis-generated neutral statements rendered under all ordered class pairs and with generic-built inner queries (normalised token-stream equality); enumerated sensitive-term x nesting-position x class matrix against a convention table",
+            "Neutral programs must give identical token streams under any two classes once identifier quotes, placeholder style, set-operand brackets and the GROUP BY alias "
+            "policy are normalised, and must not change when nested queries are built by the generic class; Parameter(idx), parameterised values, booleans, arrays, "
+            "intervals, tz-aware times and quoted names are placed at 9 nesting positions under each class (inner query built by the same or the generic class, inline and "
+            "parameterised) and the tokens between marker brackets must have the form the convention table prescribes for the outer class.",
+            "Trusted: the convention table (DESIGN.md Appendix C) and the normalisation rewrites in pbt/props/c08.py."),
 }
 
 NOT_BUILT = {}
